@@ -37,6 +37,8 @@ def gen_vocab(ch, ft):
             if ft["subtypes"] and i > 0 and ch.flag(0.6):
                 parent = f"t{ch.int(0, i - 1)}"
             types.append([f"t{i}", parent])
+    if ft.get("agent_first"):
+        types.append(["agent", "object"])
     tnames = [t for t, _ in types] or ["object"]
     allt = tnames + (["object"] if typed and ch.flag(0.3) else [])
 
@@ -46,7 +48,8 @@ def gen_vocab(ch, ft):
     consts = []
     if ft["constants"] and ch.flag(0.5):
         for i in range(ch.int(1, 2)):
-            consts.append([f"k{i}", pick_type()])
+            t = pick_type()
+            consts.append([f"k{i}", "object" if t == "agent" else t])
     preds = []
     for i in range(ch.int(1, 4)):
         ar = min(ch.weighted([(3, 1), (3, 2), (2, 0), (1, 3)]), ft["max_arity"])
@@ -59,6 +62,10 @@ def gen_vocab(ch, ft):
     objects = []
     for i in range(ch.int(2, 4)):
         objects.append([f"o{i}", pick_type()])
+    if ft.get("agent_first"):
+        objects = [o for o in objects if o[1] != "agent"]
+        for i in range(ch.int(2, 4)):
+            objects.append([f"ag{i}", "agent"])
     dom = {"name": "d", "typed": typed, "types": types, "constants": consts, "predicates": preds,
            "functions": funcs, "actions": []}
     return dom, objects
@@ -321,6 +328,9 @@ def gen_action(ch, dom, ft, name="act"):
     tnames = [t for t, _ in dom["types"]] or ["object"]
     n = ch.int(0, ft["max_params"])
     params = []
+    if ft.get("agent_first"):
+        params.append(["?ag", "agent"])
+        n = max(0, n - 1)
     for i in range(n):
         params.append([PARAMS[i], ch.choice(tnames) if dom["typed"] else "object"])
     g = FGen(ch, dom, ft)
@@ -340,7 +350,10 @@ def gen_domain(ch, ft=None):
         for _, t in a["params"]:
             have = [n for n, ot in objects + dom["constants"] if types.is_sub(ot, t)]
             if not have:
-                objects.append([f"o{len(objects)}", t])
+                k = len(objects)
+                while any(n == f"o{k}" for n, _ in objects):
+                    k += 1
+                objects.append([f"ag{k}" if t == "agent" else f"o{k}", t])
     return dom, objects
 
 
